@@ -46,7 +46,9 @@ static void genDecimal(Src &s, Lit &l, bool integerOnly, __int128 lo, __int128 h
         return;
     }
     switch (s.weighted({4, 2, 2})) { case 1: t += '+'; l.hasSign = true; break; case 2: t += '-'; l.hasSign = true; break; default: break; }
-    int nd = s.prob(1, 4) ? (int) s.range(16, 25) : (int) s.range(1, 15);
+    // 1..25 digits as the property quantifies, and occasionally up to 52 so that the whole token approaches (but stays
+    // below) the 63 significant characters the white-space-squeezing conversion buffer of the library holds
+    int nd = s.prob(1, 12) ? (int) s.range(26, 52) : s.prob(1, 4) ? (int) s.range(16, 25) : (int) s.range(1, 15);
     l.digits = nd;
     auto digs = [&](int n) { std::string d; for (int i = 0; i < n; i++) d += (char) ('0' + s.range(0, 9)); return d; };
     switch (s.weighted({3, 1, 3, 2})) {
